@@ -116,6 +116,31 @@ fn t_mac_verify(i: &Input) -> Outcome {
     Ok(())
 }
 
+/// Object-API MAC verification with a Vec-backed MAC of ANY length: must never panic, and must accept only the MAC of
+/// exactly the right length (a correct MAC followed by extra bytes, or a prefix of it, is a different value).
+fn t_mac_verify_object(i: &Input) -> Outcome {
+    use dryoc::auth::Auth;
+    use dryoc::onetimeauth::OnetimeAuth;
+    let (k, x) = (i.arr::<32>("k"), i.get("x"));
+    let len = i.num("len") as usize;
+    // candidate = the correct MAC truncated / extended with zero bytes to `len`
+    let good: Vec<u8> = Auth::compute_to_vec(dryoc::auth::Key::from(k), &x.to_vec());
+    let mut cand = good.clone();
+    cand.resize(len, 0);
+    let r = Auth::compute_and_verify(&cand, dryoc::auth::Key::from(k), &x.to_vec());
+    if r.is_ok() != (len == 32) {
+        return fail(format!("Ok only for the 32-byte MAC (len {})", len), format!("{:?}", r.is_ok()), "Auth::compute_and_verify accept/reject decision for a MAC of this length");
+    }
+    let good1: Vec<u8> = OnetimeAuth::compute_to_vec(dryoc::onetimeauth::Key::from(k), &x.to_vec());
+    let mut cand1 = good1.clone();
+    cand1.resize(len, 0);
+    let r1 = OnetimeAuth::compute_and_verify(&cand1, dryoc::onetimeauth::Key::from(k), &x.to_vec());
+    if r1.is_ok() != (len == 16) {
+        return fail(format!("Ok only for the 16-byte MAC (len {})", len), format!("{:?}", r1.is_ok()), "OnetimeAuth::compute_and_verify accept/reject decision for a MAC of this length");
+    }
+    Ok(())
+}
+
 /// An authentic message whose (encrypted) tag byte is `tag`, produced by the
 /// classic push, pulled through the object API.
 fn t_stream_tag_object(i: &Input) -> Outcome {
@@ -178,6 +203,7 @@ pub const C04: Registry = &[
     ("sign_open", t_sign_open),
     ("sign_verify_detached", t_sign_verify_detached),
     ("mac_verify", t_mac_verify),
+    ("mac_verify_object", t_mac_verify_object),
     ("stream_tag_object", t_stream_tag_object),
     ("pwhash_str_verify", t_pwhash_str_verify),
     ("pwhash_str_needs_rehash", t_pwhash_str_needs_rehash),
@@ -362,6 +388,12 @@ pub fn c04(ctx: &mut Ctx) -> Search {
             ctx.run("sign_open", Input::new().b("pk", &pkx).b("x", &x))?;
             ctx.run("mac_verify", Input::new().b("k", &k).b("mac", &mac).b("x", &x))?;
         }
+    }
+
+    // object-API MAC verification with Vec-backed MACs of every length
+    for len in 0..=70u64 {
+        let x = ctx.rng.bytes((len % 9) as usize);
+        ctx.run("mac_verify_object", Input::new().b("k", &k).b("x", &x).u("len", len))?;
     }
 
     // authentic stream messages carrying every tag byte
